@@ -86,8 +86,10 @@ Print Assumptions guard_hclose_reports_failed_update.
 
 (** POSITION of the guards (regenerated from the control structure of the current sources): every guard stands at
     conditional depth 0 of its function (no branch can bypass it), no effect of the function precedes it, and the
-    guarded SD handle is not re-assigned after it.  A guard moved into a branch, or a handle looked up again after
-    the guard, changes these numbers. *)
+    guarded SD handle is not re-assigned after it, no successful exit and no store through a pointer (free, ++, p->x =,
+    a[i] =) stands before it (the one exception is SDsetexternalfile's documented no-op exit for a dataset that is
+    external already).  A guard moved into or behind a branch, or a handle looked up again after the guard, changes
+    these numbers. *)
 Theorem guards_dominate :
   sdcreate_guard_depth = 0 /\
   sdcreate_handle_reassigned_after_guard = 0 /\
@@ -160,7 +162,79 @@ Theorem guards_dominate :
   hwrite_guard_depth = 0 /\
   hwrite_effects_before_guard = 0 /\
   htrunc_guard_depth = 0 /\
-  htrunc_effects_before_guard = 0.
+  htrunc_effects_before_guard = 0 /\
+  sdcreate_success_exits_before_guard = 0 /\
+  sdcreate_stores_before_guard = 0 /\
+  sdsetdimname_success_exits_before_guard = 0 /\
+  sdsetdimname_stores_before_guard = 0 /\
+  sdsetrange_success_exits_before_guard = 0 /\
+  sdsetrange_stores_before_guard = 0 /\
+  sdsetattr_success_exits_before_guard = 0 /\
+  sdsetattr_stores_before_guard = 0 /\
+  sdsetdatastrs_success_exits_before_guard = 0 /\
+  sdsetdatastrs_stores_before_guard = 0 /\
+  sdsetcal_success_exits_before_guard = 0 /\
+  sdsetcal_stores_before_guard = 0 /\
+  sdsetfillvalue_success_exits_before_guard = 0 /\
+  sdsetfillvalue_stores_before_guard = 0 /\
+  sdsetdimstrs_success_exits_before_guard = 0 /\
+  sdsetdimstrs_stores_before_guard = 0 /\
+  sdsetdimscale_success_exits_before_guard = 0 /\
+  sdsetdimscale_stores_before_guard = 0 /\
+  sdsetdimval_comp_success_exits_before_guard = 0 /\
+  sdsetdimval_comp_stores_before_guard = 0 /\
+  sdwritedata_success_exits_before_guard = 0 /\
+  sdwritedata_stores_before_guard = 0 /\
+  sdsetexternalfile_success_exits_before_guard = 1 /\
+  sdsetexternalfile_stores_before_guard = 0 /\
+  sdsetcompress_success_exits_before_guard = 0 /\
+  sdsetcompress_stores_before_guard = 0 /\
+  sdsetchunk_success_exits_before_guard = 0 /\
+  sdsetchunk_stores_before_guard = 0 /\
+  sdsetnbitdataset_success_exits_before_guard = 0 /\
+  sdsetnbitdataset_stores_before_guard = 0 /\
+  sdwritechunk_success_exits_before_guard = 0 /\
+  sdwritechunk_stores_before_guard = 0 /\
+  grsetattr_success_exits_before_guard = 0 /\
+  grsetattr_stores_before_guard = 0 /\
+  hstartaccess_success_exits_before_guard = 0 /\
+  hstartaccess_stores_before_guard = 0 /\
+  hsetlength_success_exits_before_guard = 0 /\
+  hsetlength_stores_before_guard = 0 /\
+  hlcreate_success_exits_before_guard = 0 /\
+  hlcreate_stores_before_guard = 0 /\
+  hlconvert_success_exits_before_guard = 0 /\
+  hlconvert_stores_before_guard = 0 /\
+  hxcreate_success_exits_before_guard = 0 /\
+  hxcreate_stores_before_guard = 0 /\
+  hccreate_success_exits_before_guard = 0 /\
+  hccreate_stores_before_guard = 0 /\
+  hmccreate_success_exits_before_guard = 0 /\
+  hmccreate_stores_before_guard = 0 /\
+  hmcwritechunk_success_exits_before_guard = 0 /\
+  hmcwritechunk_stores_before_guard = 0 /\
+  hdupdd_success_exits_before_guard = 0 /\
+  hdupdd_stores_before_guard = 0 /\
+  hdeldd_success_exits_before_guard = 0 /\
+  hdeldd_stores_before_guard = 0 /\
+  hdreuse_tagref_success_exits_before_guard = 0 /\
+  hdreuse_tagref_stores_before_guard = 0 /\
+  vattach_success_exits_before_guard = 0 /\
+  vattach_stores_before_guard = 0 /\
+  vdelete_success_exits_before_guard = 0 /\
+  vdelete_stores_before_guard = 0 /\
+  vsdelete_success_exits_before_guard = 0 /\
+  vsdelete_stores_before_guard = 0 /\
+  vaddtagref_success_exits_before_guard = 0 /\
+  vaddtagref_stores_before_guard = 0 /\
+  vdeletetagref_success_exits_before_guard = 0 /\
+  vdeletetagref_stores_before_guard = 0 /\
+  vswrite_success_exits_before_guard = 0 /\
+  vswrite_stores_before_guard = 0 /\
+  hwrite_success_exits_before_guard = 0 /\
+  hwrite_stores_before_guard = 0 /\
+  htrunc_success_exits_before_guard = 0 /\
+  htrunc_stores_before_guard = 0.
 Proof. exact guards_dominate_full. Qed.
 Print Assumptions guards_dominate.
 
@@ -207,6 +281,13 @@ Theorem gr_guard_needs_write_bit : write_guard grsetattr_denied.
 Proof. exact grsetattr_guard. Qed.
 Print Assumptions gr_guard_needs_write_bit.
 
+(** VSsetfields defines a record layout (a creation) exactly for a vdata attached with 'w' that has no records and no
+    fields yet -- the condition is the conjunction of all tests enclosing that branch in the current vsfld.c *)
+Theorem guard_vssetfields_defines_layout : forall acc nv wn,
+  vssetfields_defines_layout acc nv wn = 1 <-> (acc = CH_W /\ nv = 0 /\ wn = 0).
+Proof. exact vssetfields_define_spec. Qed.
+Print Assumptions guard_vssetfields_defines_layout.
+
 Theorem guard_vattach : forall mode facc,
   vattach_denied mode facc = 1 <-> (mode = CH_W /\ Z.land facc DFACC_WRITE = 0).
 Proof. exact vattach_denied_spec. Qed.
@@ -237,7 +318,7 @@ Definition ex_ops : list op :=
   [ OStartAccess 1000 1 DFACC_READ; ORead 2 10; OWrite 2 4; OTrunc 2 3; OStartAccess 1000 1 DFACC_RDWR;
     OStartAccess 1002 1 DFACC_READ; OSetLength 3 8; OStartAccess 1001 1 DFACC_READ; OHLconvert 2; OPutElement 1000 1 20;
     OPutElement 1500 1 20; ODupdd 1100 1 1000 1; OCache 1; ODeldd 1000 1; OReuse 1000 1; OSpecialCreate 0 1000 1;
-    OSpecialCreate 3 1600 1; OVSattach 5 CH_R; OVSwrite 6 3; OVset 6; OVSattach (-1) CH_W; OVattach 6 CH_R; OVset 7;
+    OSpecialCreate 3 1600 1; OVSattach 5 CH_R; OVSwrite 6 3; OVSdefine 6 0 0; OVset 6; OVSattach (-1) CH_W; OVattach 6 CH_R; OVset 7;
     OVattach (-1) CH_W; OVdelete true 5; OVdetach 6; OEndAccess 2; OEndAccess 3; OEndAccess 4; OVdetach 7; OSync; OCache 0; OClose ].
 
 Example ex_state_is_read_only : ro_inv (hopen_existing DFACC_READ ex_dds 444 (4, 3, 1)).
@@ -247,7 +328,7 @@ Proof. apply hopen_ro_inv. reflexivity. Qed.
     succeed, every write request fails, no device write *)
 Example ex_results :
   map fst (snd (run (hopen_existing DFACC_READ ex_dds 444 (4, 3, 1)) ex_ops)) =
-  [2; 0; -1; -1; -1; 3; -1; 4; -1; -1; -1; -1; 0; -1; -1; -1; -1; 6; -1; -1; -1; 7; -1; -1; -1; 0; 0; 0; 0; 0; 0; 0; 0]
+  [2; 0; -1; -1; -1; 3; -1; 4; -1; -1; -1; -1; 0; -1; -1; -1; -1; 6; -1; -1; -1; -1; 7; -1; -1; -1; 0; 0; 0; 0; 0; 0; 0; 0]
   /\ writes_of (snd (run (hopen_existing DFACC_READ ex_dds 444 (4, 3, 1)) ex_ops)) = [].
 Proof. vm_compute. split; reflexivity. Qed.
 
